@@ -18,7 +18,7 @@ RULE = ("keys = every (target, function, signature) of python/numpy(+debug=1)/st
         "expression churn) and interleaved pollution. distinct_nontrivial = number of distinct (history, key) pairs whose text was generated (not refused) "
         "and compared with the canonical table")
 ASSUME = ["sha256 collisions are negligible", "generation refusals (NotImplementedError) must themselves be reproducible"]
-REQUIRE = ["evaluations", "histories:compared", "keys:generated"]
+REQUIRE = ["evaluations", "histories:compared", "keys:generated", "shared-context:compared"]
 
 REFUSED = hashlib.sha256(b"NotImplementedError").hexdigest()
 ROOT = os.path.dirname(os.path.dirname(os.path.dirname(os.path.abspath(__file__))))
@@ -80,7 +80,55 @@ def task_history(params, rec):
     rec.sample(desc)
 
 
-TASKS = {"history": task_history}
+IDENT = __import__("re").compile(r"[A-Za-z_][A-Za-z_0-9]*|\s+|.")
+
+
+def alpha_equivalent(a, b):
+    """True when the two texts are the same token sequence up to a consistent one-to-one renaming of identifiers"""
+    ta = [t for t in IDENT.findall(a) if not t.isspace()]
+    tb = [t for t in IDENT.findall(b) if not t.isspace()]
+    if len(ta) != len(tb):
+        return False
+    fwd, bwd = {}, {}
+    for x, y in zip(ta, tb):
+        isid = x[0].isalpha() or x[0] == "_"
+        if not isid or not (y[0].isalpha() or y[0] == "_"):
+            if x != y:
+                return False
+            continue
+        if fwd.setdefault(x, y) != y or bwd.setdefault(y, x) != x:
+            return False
+    return True
+
+
+def task_shared(params, rec):
+    """the other reading of 'regardless of which targets were used earlier': the SAME context and traced graph printed for a second target"""
+    try:
+        out = run_child(dict(shared_context=params["pairs"]), params["hashseed"])["shared"]
+    except subprocess.TimeoutExpired:
+        rec.inconc("shared-context child timed out")
+        return
+    except Exception as e:
+        rec.inconc(f"shared-context child crashed: {e}"[:600])
+        return
+    for k, r in out.items():
+        fname, a, b = k.split("|")
+        if r.get("refused"):
+            rec.count("shared-context:refused")
+            continue
+        if "error" in r:
+            rec.violation("shared-context:second-target-raises", dict(function=fname, first=a, second=b, exc=r["error"]))
+            continue
+        rec.count("evaluations")
+        rec.count("shared-context:compared")
+        rec.cls("shared", fname, a, b)
+        if not r["same"]:
+            ae = alpha_equivalent(r["alone"], r["after"])
+            diff = "\n".join(list(difflib.unified_diff(r["alone"].splitlines(), r["after"].splitlines(), "own-context", "after-" + a, lineterm="", n=0))[:12])
+            rec.violation("shared-context:text-depends-on-earlier-target", dict(function=fname, first=a, second=b, only_local_names_renamed=ae, diff=diff[:1500]))
+
+
+TASKS = {"history": task_history, "shared": task_shared}
 SHARD_TIMEOUT = {"quick": 2400, "thorough": 5000}
 
 POLL = ["other-targets", "alt-context", "tmp-symbols", "failing-traces", "deep-first-false", "apmath-first", "special-functions", "expression-churn"]
@@ -118,7 +166,16 @@ def plan(tier, seed):
     canon = run_child(dict(order="sorted"), 0)
     if canon["errors"]:
         raise RuntimeError("canonical run reported errors: %r" % canon["errors"])
-    return [("history", dict(canonical=canon["digests"], history=h, hashseed=hs)) for h, hs in histories(tier, seed)]
+    t = [("history", dict(canonical=canon["digests"], history=h, hashseed=hs)) for h, hs in histories(tier, seed)]
+    SHARED_FUNCS = ["absolute", "acosh", "asin", "atanh", "log1p", "sqrt", "exp", "square"]
+    SHARED_TARGETS = ["python", "numpy", "stablehlo", "cpp"]
+    rnd = random.Random(f"c09-shared-{seed}")
+    pairs = [(f, a, b) for f in SHARED_FUNCS for a in SHARED_TARGETS for b in SHARED_TARGETS if a != b]
+    if tier == "quick":
+        pairs = rnd.sample(pairs, 24)
+    for i in range(0, len(pairs), 12):
+        t.append(("shared", dict(pairs=pairs[i:i + 12], hashseed=rnd.choice([0, 1, 12345]))))
+    return t
 
 
 def replay(site, witness, rec):
